@@ -298,3 +298,70 @@ def lazy_ra(rows, dtype, mode):
     parent = [junk] + rows + [junk]
     mask = np.array([False] + [True] * n + [False])
     return build(parent)[mask]
+
+
+# ---------------------------------------------------------------- observables (shared with C19)
+
+def norm(v):
+    """Normalise any returned value to comparable plain data: values, row lengths, dtype, kind."""
+    from npstructures import RaggedArray
+    if isinstance(v, RaggedArray):
+        rows = [np.asarray(r).tolist() for r in v]
+        return {"k": "ragged", "rows": rows, "lens": [int(x) for x in v.lengths], "n": len(v),
+                "dt": str(v.dtype) if sum(len(r) for r in rows) else None}
+    if isinstance(v, np.ndarray):
+        return {"k": "ndarray", "v": v.tolist(), "shape": list(v.shape), "dt": str(v.dtype) if v.size else None}
+    if isinstance(v, np.generic):
+        return {"k": "scalar", "v": v.item(), "dt": str(v.dtype)}
+    if isinstance(v, (tuple, list)):
+        return [norm(x) for x in v]
+    if isinstance(v, dict):
+        return {str(k): norm(x) for k, x in v.items()}
+    if isinstance(v, (bool, int, float, str)) or v is None:
+        return v
+    return repr(v)
+
+
+def observe(f, *a, **k):
+    """outcome of a library call as comparable data; refusals by kind only"""
+    try:
+        return {"ok": norm(f(*a, **k))}
+    except Exception as e:  # noqa: BLE001
+        return {"refused": type(e).__name__}
+
+
+def same(a, b):
+    """deep equality with NaN == NaN"""
+    if isinstance(a, float) or isinstance(b, float):
+        return same_scalar(a, b) and isinstance(a, (int, float)) and isinstance(b, (int, float))
+    if isinstance(a, dict) and isinstance(b, dict):
+        return a.keys() == b.keys() and all(same(a[k], b[k]) for k in a)
+    if isinstance(a, list) and isinstance(b, list):
+        return len(a) == len(b) and all(same(x, y) for x, y in zip(a, b))
+    return type(a) == type(b) and a == b
+
+
+def same_outcome(o1, o2):
+    """two observe() results: both refused (any kind) or both returned equal data"""
+    if "refused" in o1 or "refused" in o2:
+        return "refused" in o1 and "refused" in o2
+    return same(o1["ok"], o2["ok"])
+
+
+def diff_obs(exp, got, path=""):
+    """first differing path between two normalised observables (for reports)"""
+    if isinstance(exp, dict) and isinstance(got, dict):
+        for k in sorted(set(exp) | set(got)):
+            if k not in exp or k not in got:
+                return f"{path}/{k} (missing on one side)"
+            d = diff_obs(exp[k], got[k], f"{path}/{k}")
+            if d:
+                return d
+        return None
+    if isinstance(exp, list) and isinstance(got, list) and len(exp) == len(got):
+        for i, (x, y) in enumerate(zip(exp, got)):
+            d = diff_obs(x, y, f"{path}[{i}]")
+            if d:
+                return d
+        return None
+    return None if same(exp, got) else f"{path}: expected {exp!r} got {got!r}"
